@@ -417,7 +417,7 @@ def tables(draw, depth: int = 0):
     for _ in range(n):
         k = draw(st.integers(0, 9))
         if k <= 6 or depth >= 2:
-            entries.append(("route", draw(st.sampled_from(["GET", "GET", "POST", "*", "get", "post"])), draw(st.sampled_from(TEMPLATES))))
+            entries.append(("route", draw(st.sampled_from(["GET", "GET", "POST", "*", "post", "Post"])), draw(st.sampled_from(TEMPLATES))))  # (other spellings of GET: unit method-case)
         elif k == 7:
             entries.append(("static", draw(st.sampled_from(["/a", "/s", "/a/b", "/a b", "/é/s"]))))
         elif k == 8:
